@@ -13,6 +13,7 @@ def run(prog, chk):
     shape_table(prog, chk)
     rfc3161_table(prog, chk)
     rfc3161_index_table(prog, chk)
+    lifetime_time_table(prog, chk)
     _run(prog, chk)
 
 
@@ -248,3 +249,51 @@ def rfc3161_index_table(prog, chk):
         got = paths[0].ret
         chk.ob("C01.rfc3161index", inst, (got == 0) == want_ok, "expected %s, source returns %s" % ("KSI_OK" if want_ok else "a mismatch error", hex(got) if isinstance(got, int) else got),
                loc=fn.loc(), fn=fn, nontrivial=not want_ok)
+
+
+def lifetime_time_table(prog, chk):
+    """The lifetime conditions compare a time taken from the signature (64 bits, unsigned) with the dates in the algorithm table
+    (time_t).  Whatever the expression that turns the one into the other - a cast, a helper - it must keep the order with respect to
+    every date of the table: for each representative t of the order regions of 0..2^64-1 around those dates, and for 2^31, 2^32, 2^63
+    and 2^64-1, the value handed to the lookup is not before a date unless t is.  The expression is read from every call site in the
+    library that hands a time_t derived from KSI_Integer_getUInt64 to a callee, and evaluated (casts wrap to their width)."""
+    from ksirules.interp import Interp, Path, inline_model, succeed_model
+    from ksirules.model import strip, walk
+    chk.rule("C01.lifetime", "the time handed to the algorithm-lifetime lookup is on the same side of every deprecation / obsolescence date as the "
+                             "64-bit time of the signature (value table per call site, all order regions up to 2^64-1)", floor=30)
+    dates = set()
+    for g in prog.globals.get("KSI_hashAlgorithmInfo", []):
+        for el in (g.get("init") or {}).get("e", []):
+            for f in ("deprecatedFrom", "obsoleteFrom"):
+                v = (el.get("f") or {}).get(f, {}).get("v")
+                if isinstance(v, int) and v:
+                    dates.add(v)
+    if not dates:
+        raise AnalysisBroken("no deprecation date found in KSI_hashAlgorithmInfo")
+    reps = sorted({0, 1, (1 << 31) - 1, 1 << 31, (1 << 32) - 1, 1 << 32, (1 << 32) + 5, (1 << 63) - 1, 1 << 63, (1 << 63) + 1467331200, (1 << 64) - 1} |
+                  {d + k for d in dates for k in (-1, 0, 1)} | {(1 << 32) + d for d in dates})
+    nsites = 0
+    for fn in sorted(prog.all_functions(), key=lambda f: (f.unit, f.line)):
+        for b, i, c in fn.calls():
+            for j, a in enumerate(c["a"]):
+                A = fn.deep(a)
+                if not isinstance(A, dict) or (strip(A).get("t") or "") != "time_t":
+                    continue
+                if not any(m.get("k") == "call" and m.get("fn") == "KSI_Integer_getUInt64" for m in walk(A)):
+                    continue
+                nsites += 1
+                helpers = {m["fn"] for m in walk(A) if m.get("k") == "call" and m.get("fn") and m["fn"] != "KSI_Integer_getUInt64"}
+                for t in reps:
+                    ov = {"KSI_Integer_getUInt64": lambda I, p, n, a_, t=t: t}
+                    I = Interp(fn, inputs={}, call_model=inline_model(prog, helpers, fallback=succeed_model(prog, ov)), on_unknown="stop", prog=prog)
+                    r = I.ev(Path(), A)
+                    inst = "%s:line %s[t=%#x]" % (fn.name, c.get("ln"), t)
+                    if not isinstance(r, int):
+                        raise AnalysisBroken("lifetime time expression not determined at %s: %r" % (inst, r))
+                    wrong = [d for d in sorted(dates) if (r >= d) != (t >= d)]
+                    chk.ob("C01.lifetime", inst, not wrong,
+                           "signature time %d is %s %s; the lookup is given %d, which is %s" %
+                           (t, "not before" if t >= min(dates) else "before", sorted(dates), r, "on the other side of %s" % wrong if wrong else "on the same side of each"),
+                           loc=fn.loc(c.get("ln")), fn=fn, nontrivial=t >= (1 << 63))
+    if nsites < 5:
+        raise AnalysisBroken("C01.lifetime: only %d call sites handing a signature time to a time_t parameter" % nsites)
